@@ -18,5 +18,6 @@ func runC01(c *fw.Ctx) {
 	r11(c)
 	r12(c)
 	r13(c)
+	checkLoops(c, "R1.5")
 	r14(c)
 }
